@@ -244,6 +244,17 @@ def core_check(prop, tier, seed_):
             "postanom": r["postanom"], "repo_head": common.repo_head()})
         print(f"VIOLATION property={prop} replay={path}")
         log(f"  {kname} {core.op_digest(r['op'])} -> {r['res']} clauses={own}")
+    if prop in ("C01", "C02", "C03"):
+        # explicit ids of unusual numeric kinds followed by automatic additions (the id universe of the model holds
+        # small ints and labels only): the states reached are judged by the invariants of the class
+        iviol, iinfo = special_ids_phase(prop)
+        cov["special_numeric_ids"] = iinfo
+        for (how, own), r in iviol.items():
+            nviol += 1
+            path = common.write_replay(prop, {"property": prop, "direction": "special-ids", "clauses": list(own), "record": r,
+                                              "repo_head": common.repo_head()})
+            print(f"VIOLATION property={prop} replay={path}")
+            log(f"  {how} clauses={list(own)}")
     if tier == "thorough" and prop in ("C01", "C02", "C03", "C04"):
         sviol, sinfo = suite_trace(prop, tier)
         cov["repository_test_suite_traced"] = sinfo
@@ -257,6 +268,37 @@ def core_check(prop, tier, seed_):
     common.write_evidence(prop, tier_=tier, seed_=seed_, coverage=cov, wall_s=t(), violations=nviol,
                           assumptions=ASSUMPTIONS)
     return 1 if nviol else 0
+
+
+def special_ids_phase(prop):
+    from . import c04prov
+
+    want = {"C01": "Hypergraph.", "C02": "DiHypergraph.", "C03": "SimplicialComplex."}[prop]
+    cls = {"C01": "H", "C02": "DH", "C03": "SC"}[prop]
+    recs = []
+    for si, (how, make) in enumerate(c04prov.special_id_sources()):
+        if not how.startswith(want):
+            continue
+        for r in c04prov.follow_up(f"ids.{si}", how, make):
+            if r["post"] == nets_null():
+                continue
+            recs.append({"rid": r["rid"], "cls": cls, "call": how, "test": "special ids", "post": r["post"], "anom": r["anom"],
+                         "closed": True})
+    bad = common.validate_records(recs, "TraceInvD" if cls == "DH" else "TraceInvH", jobs=2)
+    byrid = {r["rid"]: r for r in recs}
+    viol = {}
+    for rid, cl in bad.items():
+        cl = [c.replace("C01:", prop + ":", 1) if c.startswith("C01:anomaly") else c for c in cl]
+        own = [c for c in cl if c.startswith(prop + ":")]
+        if own:
+            viol.setdefault((byrid[rid]["call"], tuple(own)), byrid[rid])
+    return viol, {"records": len(recs), "with_verdicts": len(bad)}
+
+
+def nets_null():
+    from . import nets
+
+    return nets.NULL
 
 
 def suite_trace(prop, tier):
